@@ -9,3 +9,7 @@ APPENDS = {
     "rustzx-core/src/zx/sound/mixer.rs": ["kani/core/append_mixer.rs"],
     "rustzx-core/src/zx/video/screen.rs": ["kani/core/append_screen.rs"],
 }
+
+NEW_FILES = {
+    "rustzx-core/examples/verif_contention.rs": "include!(\"@VERIF@/replay/contention.rs\");\n",
+}
